@@ -118,6 +118,8 @@ static void RunCleanup(vf::BS & bs)
    // some own nodes for sure, then a last burst that only partly reaches the server
    {MessageRef m = GetMessageFromPool(PR_COMMAND_SETDATA); MessageRef d = GetMessageFromPool(9); (void) m()->AddMessage("k", d); (void) m()->AddMessage("k/deep/er", d); (void) w.Send(0, m);}
    {MessageRef m = GetMessageFromPool(PR_COMMAND_SETPARAMETERS); (void) m()->AddBool((String("SUBSCRIBE:")+w.c[1]->root.c_str()+"/*"), true); (void) m()->AddBool("SUBSCRIBE:/*/*/*/*", true); (void) w.Send(0, m);}
+   // a session-relative subscription, sent twice (the second one must be recognised as the one already held)
+   for (int rep=0; rep<2; rep++) if (w.c[0]->connected) {MessageRef m = GetMessageFromPool(PR_COMMAND_SETPARAMETERS); (void) m()->AddBool("SUBSCRIBE:*/x", true); (void) w.Send(0, m); w.Pump();}
    if (w.c[0]->connected) w.Pump();
    if (((mute == 1)||(mute == 2))&&(w.c[0]->connected))
    {
